@@ -104,7 +104,21 @@ const BASE_TYPES: &[&str] = &[
     "A_ASCIISTRING", "A_UNICODE2STRING", "A_BYTEFIELD",
 ];
 
+/// a long text whose multi-byte characters sit at every residue around the usual size limits
+fn long_text(r: &mut Rng) -> String {
+    let n = *r.pick(&[200usize, 255, 256, 1000, 1020, 1021, 1022, 1023, 1024, 1025, 2048, 4095, 4096, 8192, 70_000]) + r.below(5);
+    let unit: &str = *r.pick(&["\u{b0}C ", "\u{65e5}\u{672c}", "\u{1d11e}", "\u{e4}", "ab\u{20ac}", "x"]);
+    let mut s = "p".repeat(r.below(4));
+    while s.len() < n {
+        s.push_str(unit);
+    }
+    s
+}
+
 fn text_variant(r: &mut Rng) -> String {
+    if r.chance(1, 25) {
+        return long_text(r);
+    }
     match r.below(9) {
         0 => String::new(),
         1 => "plain text".into(),
